@@ -257,7 +257,7 @@ func (sw *SlidingWindow) Add(data any) {
 		// already-triggered window that is still open for late updates.
 		if sw.config.AllowedLateness > 0 {
 			for _, info := range sw.triggeredWindows {
-				if info.slot.Contains(eventTime) {
+				if info.slot.Contains(eventTime) && sw.lateUpdateAllowedLocked(info) {
 					sw.handleLateData(eventTime, sw.config.AllowedLateness)
 					placed = true
 					break
@@ -853,11 +853,21 @@ func (sw *SlidingWindow) getWindowKey(endTime time.Time) string {
 	return fmt.Sprintf("%d", endTime.UnixNano())
 }
 
+// lateUpdateAllowedLocked reports whether a triggered window is still inside its allowed lateness
+// at the CURRENT watermark (closeExpiredWindows only prunes when the trigger goroutine runs; during
+// a burst the watermark can already be past closeTime while the entry is still present).
+func (sw *SlidingWindow) lateUpdateAllowedLocked(info *triggeredWindowInfo) bool {
+	if sw.watermark == nil {
+		return true
+	}
+	return sw.watermark.GetCurrentWatermark().Before(info.closeTime)
+}
+
 // handleLateData handles late data that arrives within allowedLateness
 func (sw *SlidingWindow) handleLateData(eventTime time.Time, allowedLateness time.Duration) {
 	// Find which triggered window this late data belongs to
 	for _, info := range sw.triggeredWindows {
-		if info.slot.Contains(eventTime) {
+		if info.slot.Contains(eventTime) && sw.lateUpdateAllowedLocked(info) {
 			// This late data belongs to a triggered window that's still open
 			// Trigger window again with updated data (late update)
 			sw.triggerLateUpdateLocked(info.slot)
